@@ -2,7 +2,7 @@
 worktree of /repo (under /tmp, removed afterwards), run the property's quick check against it and
 report caught / missed. Nothing is written to /repo or to /verif/evidence.
 
-usage: /venv/bin/python tools/muttest.py [Cxx ...] [--name substr] [--suite]
+usage: /venv/bin/python tools/muttest.py [Cxx ...] [--name substr] [--suite] [--fast]
 """
 import json, os, shutil, subprocess, sys, time
 HERE = os.path.dirname(os.path.dirname(os.path.abspath(__file__)))
@@ -44,6 +44,8 @@ def main():
             open(path, "w").write(src.replace(m["old"], m["new"], m.get("count", 1)))
             shutil.rmtree(SCR, ignore_errors=True)
             env = dict(os.environ, VERIF_REPO=WT, VERIF_SCRATCH=SCR)
+            if "--fast" in sys.argv:
+                env["VERIF_SHRINK_CAP"] = "1"  # caught / missed is all that is asked
             t0 = time.time()
             cmd = [os.path.join(HERE, "check"), m["prop"], "quick"] + m.get("subs", [])
             r = subprocess.run(cmd, env=env, stdout=subprocess.PIPE, stderr=subprocess.STDOUT, text=True)
